@@ -1054,8 +1054,8 @@ def build_wildcard_re(lookup_value):
         lookup_value)
     if regex != re.escape(lookup_value):
         # this will be a regex match"""
-        compiled = re.compile(f'^{regex.lower()}$')
-        return lambda x: isinstance(x, str) and compiled.match(x.lower()) is not None
+        compiled = re.compile(regex.lower(), re.DOTALL)
+        return lambda x: isinstance(x, str) and compiled.fullmatch(x.lower()) is not None
     else:
         return None
 
